@@ -117,3 +117,83 @@ Definition space_packet_pack (h : sph) (sec_header user_data : option bytes) : r
             else
               match user_data with None => Err EValue | Some _ => Ok hdr end);
   match user_data with None => Ok p1 | Some u => Ok (p1 ++ u) end.
+
+(* ---- operation histories over a header object (every public setter; none of them
+   validates its argument).  `h.apid = v` and `h.packet_id.apid = v` (and likewise the other
+   sub-object routes through the public packet_id / packet_seq_control attributes) are the
+   same assignment in the code, hence the same operation here.  data_len is a plain
+   attribute. ---- *)
+Inductive sph_op :=
+| SoApid (v : Z) | SoCount (v : Z) | SoFlags (v : Z) | SoPtype (v : Z) | SoShf (v : Z)
+| SoDlen (v : Z) | SoPack | SoObserve | SoEqFresh.
+
+Definition sph_apply (h : sph) (o : sph_op) : sph :=
+  match o with
+  | SoApid v => {| ver := ver h; ptype := ptype h; shf := shf h; apid := v;
+                   sflags := sflags h; scount := scount h; dlen := dlen h |}
+  | SoCount v => {| ver := ver h; ptype := ptype h; shf := shf h; apid := apid h;
+                    sflags := sflags h; scount := v; dlen := dlen h |}
+  | SoFlags v => {| ver := ver h; ptype := ptype h; shf := shf h; apid := apid h;
+                    sflags := v; scount := scount h; dlen := dlen h |}
+  | SoPtype v => {| ver := ver h; ptype := v; shf := shf h; apid := apid h;
+                    sflags := sflags h; scount := scount h; dlen := dlen h |}
+  | SoShf v => {| ver := ver h; ptype := ptype h; shf := v; apid := apid h;
+                  sflags := sflags h; scount := scount h; dlen := dlen h |}
+  | SoDlen v => {| ver := ver h; ptype := ptype h; shf := shf h; apid := apid h;
+                   sflags := sflags h; scount := scount h; dlen := v |}
+  | SoPack | SoObserve | SoEqFresh => h
+  end.
+
+(* SpacePacketHeader.__eq__ : self.pack() == other.pack() (either pack may raise) *)
+Definition sph_eq_res (a b : sph) : res bool :=
+  do x <- sph_pack a; do y <- sph_pack b; Ok (bytes_eqb x y).
+
+(* fresh = SpacePacketHeader(<the object's current attribute values>) -- also what
+   from_composite_fields(h.packet_id, h.packet_seq_control, h.data_len, h.ccsds_version)
+   builds --, then h == fresh and fresh == h *)
+Definition sph_eq_fresh (h : sph) : res (bool * bool) :=
+  do f <- sph_new (ptype h) (apid h) (scount h) (dlen h) (shf h) (sflags h) (ver h);
+  do e1 <- sph_eq_res h f; do e2 <- sph_eq_res f h; Ok (e1, e2).
+
+(* SpacePacketHeader.from_composite_fields(PacketId(..), PacketSeqCtrl(..), dlen, ver) *)
+Definition sph_from_composite (ptype apid scount dlen shf sflags ver : Z) : res sph :=
+  do p <- pid_new ptype shf apid;
+  do s <- psc_new sflags scount;
+  sph_new (pid_ptype p) (pid_apid p) (psc_count s) dlen (pid_shf p) (psc_flags s) ver.
+
+(* ---- SpacePacket object: header + optional secondary header + optional user data ---- *)
+Record spkt := { sp_h : sph; sp_sec : option bytes; sp_ud : option bytes }.
+
+Definition spkt_pack (p : spkt) : res bytes := space_packet_pack (sp_h p) (sp_sec p) (sp_ud p).
+
+Definition opt_bytes_eqb (a b : option bytes) : bool :=
+  match a, b with
+  | None, None => true
+  | Some x, Some y => bytes_eqb x y
+  | _, _ => false
+  end.
+
+(* SpacePacket.__eq__ : header == header and sec == sec and user_data == user_data
+   (short-circuit; the header comparison packs both headers) *)
+Definition spkt_eq (a b : spkt) : res bool :=
+  do e <- sph_eq_res (sp_h a) (sp_h b);
+  Ok (e && opt_bytes_eqb (sp_sec a) (sp_sec b) && opt_bytes_eqb (sp_ud a) (sp_ud b)).
+
+Inductive spkt_op :=
+| SpHdr (o : sph_op) | SpSetSec (s : option bytes) | SpSetUd (u : option bytes)
+| SpPack | SpObserve | SpEqFresh.
+
+Definition spkt_apply (p : spkt) (o : spkt_op) : spkt :=
+  match o with
+  | SpHdr so => {| sp_h := sph_apply (sp_h p) so; sp_sec := sp_sec p; sp_ud := sp_ud p |}
+  | SpSetSec s => {| sp_h := sp_h p; sp_sec := s; sp_ud := sp_ud p |}
+  | SpSetUd u => {| sp_h := sp_h p; sp_sec := sp_sec p; sp_ud := u |}
+  | SpPack | SpObserve | SpEqFresh => p
+  end.
+
+(* fresh = SpacePacket(SpacePacketHeader(<current values>), <copies of the parts>) *)
+Definition spkt_eq_fresh (p : spkt) : res (bool * bool) :=
+  let h := sp_h p in
+  do f <- sph_new (ptype h) (apid h) (scount h) (dlen h) (shf h) (sflags h) (ver h);
+  let q := {| sp_h := f; sp_sec := sp_sec p; sp_ud := sp_ud p |} in
+  do e1 <- spkt_eq p q; do e2 <- spkt_eq q p; Ok (e1, e2).
